@@ -8,7 +8,7 @@
 //! Request lines (answered by the Lean model `model_C18`, see Driver/C18.lean):
 //!   `sched map|iter <v> <n>` / `sched apply <v> <u> <n>`  → observed active lanes per closure call
 //!   `fold <kind> <v> <op> <init> <xs>`                    → lanes of the final accumulator of Iter::fold etc.
-//!   `emu <direct|avx2x8|avx2x16> <mask bits>`             → lanes a masked load/store with that mask touches
+//!   `emu <direct|avx2x8|avx2x16> <mask bits> <src cells>` → loaded lanes, destination image after the masked store, cells touched
 //!   `mask <v> <n>` / `bmask <v> <n>`                       → `first_n_mask(n)` lanes
 //!   `writer <len> <ops…>`                                  → SliceWriter state or `panic`
 //!   `row|bin|un|lay <ty> <op> …`                           → integer lane results
@@ -2042,11 +2042,16 @@ fn emu_cases<T: MemTy>(out: &mut Out, rng: &mut Rng, gsrc: &mut Guard, gdst: &mu
                         if !gsrc.canaries_intact(so, len * sz) || !gdst.canaries_intact(dofs, len * sz) {
                             fail = Some("bytes outside the slice were modified".into());
                         }
-                        got_load.iter().map(|&b| if b { '1' } else { '0' }).collect::<String>()
+                        let as_i = |x: T| -> i64 { format!("{:?}", x).parse::<f64>().unwrap_or(-7.0) as i64 };
+                        let load_s = hcommon::join(loaded.iter().map(|&x| as_i(x)), ",");
+                        let store_s = hcommon::join((0..len).map(|i| if got_store[i] { as_i(d[i]) } else { -1 }), ",");
+                        let idx_s = hcommon::join((0..v).filter(|&i| got_load[i]), ",");
+                        format!("load={load_s} store={store_s} idx={idx_s}")
                     }
                 };
                 out.bucket(&format!("emu_{}_{}", kind, ISA_NAMES[w]));
-                out.case(&format!("emu {kind} {bs} ty={} isa={} len={len}", T::NAME, ISA_NAMES[w]), &ans, fail.as_deref(), len > 0 && len < v);
+                let src_s = if len == 0 { "e".to_string() } else { hcommon::join((0..len).map(|i| i % 100 + 1), ",") };
+                out.case(&format!("emu {kind} {bs} {src_s} ty={} isa={} len={len}", T::NAME, ISA_NAMES[w]), &ans, fail.as_deref(), len > 0 && len < v);
             }
         }
     }
